@@ -883,6 +883,12 @@ def check_c06(mt, sess):
         for b in bs:
             if b.size and b.address is not None:
                 real_entries.add((world.func_ids.get(fu, "?" + str(fu)[:8]), b.address))
+    # a zero-sized entry block kept by an earlier rewrite (its code is gone
+    # from the listing, the block is a placeholder) hands its entry status on
+    # when it is finally removed: neither demanded nor objected to
+    zero_pre = {u for po in (getattr(sess, "pre_order", None) or {}).values() for (u, is_code, size, _) in po if is_code and size == 0}
+    placeholder_funcs = {world.func_ids.get(fu) for u, fu in (getattr(sess, "pre_fentries", None) or {}).items() if u in zero_pre}
+    optional_entries |= {e for e in real_entries if e[0] in placeholder_funcs}
     if not (want_entries <= real_entries <= (want_entries | optional_entries)):
         miss = sorted(want_entries - real_entries, key=str)
         spur = sorted(real_entries - want_entries - optional_entries, key=str)
@@ -1245,7 +1251,9 @@ def _check_c08(mt, sess):
                 for oi2, (k2, o2, l2) in sess.resolved.items():
                     if k2 in pre_hist["keys"] and sess.desc["ops"][oi2]["k"] == "ins":
                         b2 = pre_hist["keys"].index(k2)
-                        if b2 < bi and o2 == pre_hist["blk"][b2]["size"] and pre_hist["blk"][b2]["addr"] + o2 == pre_hist["blk"][bi]["addr"]:
+                        # (the block directly in front in the listing: an address
+                        # gap between two byte intervals is not part of it)
+                        if b2 == bi - 1 and o2 == pre_hist["blk"][b2]["size"]:
                             after_end_insert = True
         if bool(p1) != bool(bproc):
             raise core.Violation(
